@@ -82,14 +82,17 @@ structure Bisim (n m : Node) (R : Run n → Run m → Prop) (Q : n.S → m.S →
 /-- A node whose `get_state`/`reset` pair is an exact inverse at item granularity:
 * (refl) every reachable state is related to itself;
 * (L1) taking a state is transparent;
-* (L2) loading the state taken at `s` into *any* reachable runtime state `r` (in particular a freshly
-  built pipeline) is equivalent to continuing from `s`. -/
+* (L2) loading the state taken at `s` into *any* reachable runtime state `r` is equivalent to
+  continuing from `s`;
+* (L2f) the same for a freshly built, never reset pipeline (`rfresh` is not in `Reach`: the Loader
+  calls `root.reset(sd)` directly on the new object). -/
 def Lawful (n : Node) : Prop :=
   ∃ (R : Run n → Run n → Prop) (Q : n.S → n.S → Prop),
     Bisim n n R Q ∧
     (∀ s, Node.Reach n s → R s s) ∧
     (∀ s, Node.Reach n s → R (n.rget s).2 s) ∧
-    (∀ s r, Node.Reach n s → Node.Reach n r → R (n.rreset r (some (n.rget s).1)) (n.rget s).2)
+    (∀ s r, Node.Reach n s → Node.Reach n r → R (n.rreset r (some (n.rget s).1)) (n.rget s).2) ∧
+    (∀ s, Node.Reach n s → R (n.rreset n.rfresh (some (n.rget s).1)) (n.rget s).2)
 
 /-- Related states produce the same results forever (as long as no new epoch is started). -/
 theorem Bisim.outs_eq {n m : Node} {R : Run n → Run m → Prop} {Q : n.S → m.S → Prop}
